@@ -271,6 +271,45 @@ def wdEntry (wd : FMap WFile) (p : Path) : Option Entry :=
   | .file f => some f.entry
   | _ => none
 
+/-! ### behaviours that the code has had in two variants
+
+The translator reads from the source which variant is present (`cur`); `legacy` is the behaviour of
+the snapshot before the C18 fix series, kept for the regression witnesses in Props/C18.lean. -/
+
+structure Flags where
+  /-- `_check_entry_for_changes` compares the blob id -/
+  cmpSha : Bool
+  /-- … and the canonical mode (type, executable bit) -/
+  cmpMode : Bool
+  /-- … the mode before the cached stat data is trusted -/
+  modeBeforeStat : Bool
+  /-- `_check_entry_for_changes` handles `NotADirectoryError` from `os.lstat` -/
+  catchesNotDir : Bool
+  /-- `WorkTree.unstage` handles `NotADirectoryError` from `os.lstat` -/
+  unstageCatchesNotDir : Bool
+  /-- `path_to_tree_path` resolves a symbolic link before the index lookup -/
+  resolveLinks : Bool
+  /-- the working-tree walk leaves links to directories among `os.walk`'s directory names -/
+  linkDirsAsDirs : Bool
+  /-- `tree_path_to_fs_path` decodes tree paths strictly -/
+  strictDecode : Bool
+  /-- `update_working_tree` applies all deletions before it writes -/
+  deletesFirst : Bool
+  deriving DecidableEq, Repr
+
+def cur : Flags :=
+  { cmpSha := Gen.WorkTree.unstagedCmpSha, cmpMode := Gen.WorkTree.unstagedCmpMode,
+    modeBeforeStat := Gen.WorkTree.unstagedModeBeforeStat,
+    catchesNotDir := Gen.WorkTree.unstagedCatchesNotDir,
+    unstageCatchesNotDir := Gen.WorkTree.unstageCatchesNotDir,
+    resolveLinks := Gen.WorkTree.lookupResolvesLinks, linkDirsAsDirs := Gen.WorkTree.walkLinkDirsAsDirs,
+    strictDecode := Gen.WorkTree.strictPathDecoding, deletesFirst := Gen.WorkTree.switchDeletesFirst }
+
+def legacy : Flags :=
+  { cmpSha := true, cmpMode := false, modeBeforeStat := false, catchesNotDir := false,
+    unstageCatchesNotDir := false, resolveLinks := true, linkDirsAsDirs := true, strictDecode := true,
+    deletesFirst := false }
+
 /-! ### status -/
 
 /-- `_stat_matches_entry` (with `trust_ctime`, the default). -/
@@ -280,28 +319,30 @@ def statMatches (st e : StatKey) : Bool :=
   (!Gen.WorkTree.statCmpSize || st.size == e.size)
 
 /-- The comparison `_check_entry_for_changes` makes once the short-cut has failed. -/
-def contentDiffers (f : WFile) (e : IEntry) : Bool :=
-  (Gen.WorkTree.unstagedCmpSha && f.cid != e.cid) ||
-  (Gen.WorkTree.unstagedCmpMode && decide (f.kind ≠ e.kind))
+def contentDiffers (fl : Flags) (f : WFile) (e : IEntry) : Bool :=
+  (fl.cmpSha && f.cid != e.cid) || (fl.cmpMode && decide (f.kind ≠ e.kind))
 
-/-- `_check_entry_for_changes` for a present path (no lstat error). -/
-def entryChanged (wd : FMap WFile) (p : Path) (e : IEntry) : Bool :=
+/-- `_check_entry_for_changes` for a path whose `lstat` does not raise. -/
+def entryChanged (fl : Flags) (wd : FMap WFile) (p : Path) (e : IEntry) : Bool :=
   match lstatView wd p with
-  | .file f => if statMatches f.stat e.stat then false else contentDiffers f e
+  | .file f =>
+    if fl.cmpMode && fl.modeBeforeStat && decide (f.kind ≠ e.kind) then true
+    else if statMatches f.stat e.stat then false
+    else contentDiffers fl f e
   | _ => true
 
-def lstatRaisesNotDir (wd : FMap WFile) (p : Path) : Bool :=
-  !Gen.WorkTree.unstagedCatchesNotDir && blockedByFile wd p
+def lstatRaisesNotDir (fl : Flags) (wd : FMap WFile) (p : Path) : Bool :=
+  !fl.catchesNotDir && blockedByFile wd p
 
-def changedAt (wd : FMap WFile) (index : FMap IEntry) (p : Path) : Bool :=
+def changedAt (fl : Flags) (wd : FMap WFile) (index : FMap IEntry) (p : Path) : Bool :=
   match index.get p with
-  | some e => entryChanged wd p e
+  | some e => entryChanged fl wd p e
   | none => false
 
 /-- `get_unstaged_changes` -/
-def unstagedOf (wd : FMap WFile) (index : FMap IEntry) : Except WErr (List Path) :=
-  if index.keys.any (lstatRaisesNotDir wd) then .error .notADirectory
-  else .ok (index.keys.filter (changedAt wd index))
+def unstagedOf (fl : Flags) (wd : FMap WFile) (index : FMap IEntry) : Except WErr (List Path) :=
+  if index.keys.any (lstatRaisesNotDir fl wd) then .error .notADirectory
+  else .ok (index.keys.filter (changedAt fl wd index))
 
 /-- `changes_from_tree` as consumed by `get_tree_changes`: (add, delete, modify). -/
 def entryDiffers (h : Entry) (i : IEntry) : Bool :=
@@ -321,7 +362,7 @@ def modifiedAt (head : FMap Entry) (index : FMap IEntry) (p : Path) : Bool :=
 def stagedMod (head : FMap Entry) (index : FMap IEntry) : List Path :=
   head.keys.filter (modifiedAt head index)
 
-/-- The tree path `path_to_tree_path` computes for a walked file: links are resolved. -/
+/-- The tree path `path_to_tree_path` computes for a walked file when it resolves links. -/
 def aliasOf (p : Path) (f : WFile) : Path :=
   match f.kind, f.res.alias with
   | .symlink, some q => q
@@ -330,14 +371,15 @@ def aliasOf (p : Path) (f : WFile) : Path :=
 /-- `os.walk` puts a link that resolves to a directory among the directory names. -/
 def walkedAsFile (f : WFile) : Bool := !(f.kind == .symlink && f.res.target == .dir)
 
-/-- `get_untracked_paths(untracked_files="all")` without ignore rules. -/
-def untrackedAt (wd : FMap WFile) (index : FMap IEntry) (p : Path) : Bool :=
+def untrackedAt (fl : Flags) (wd : FMap WFile) (index : FMap IEntry) (p : Path) : Bool :=
   match lstatView wd p with
-  | .file f => walkedAsFile f && !index.has (aliasOf p f)
+  | .file f =>
+    (!fl.linkDirsAsDirs || walkedAsFile f) && !index.has (if fl.resolveLinks then aliasOf p f else p)
   | _ => false
 
-def untrackedOf (wd : FMap WFile) (index : FMap IEntry) : List Path :=
-  wd.keys.filter (untrackedAt wd index)
+/-- `get_untracked_paths(untracked_files="all")` without ignore rules. -/
+def untrackedOf (fl : Flags) (wd : FMap WFile) (index : FMap IEntry) : List Path :=
+  wd.keys.filter (untrackedAt fl wd index)
 
 structure Status where
   add : List Path
@@ -348,14 +390,15 @@ structure Status where
   deriving Repr, DecidableEq
 
 /-- `porcelain.status(untracked_files="all")`. -/
-def status (w : World) : Except WErr Status :=
-  match unstagedOf w.wd w.index with
+def status (fl : Flags) (w : World) : Except WErr Status :=
+  match unstagedOf fl w.wd w.index with
   | .error e => .error e
   | .ok u =>
     let a := stagedAdd w.head w.index
     let d := stagedDel w.head w.index
     let m := stagedMod w.head w.index
-    if (a ++ d ++ m ++ u).all validUtf8 then .ok ⟨a, d, m, u, untrackedOf w.wd w.index⟩
+    if !fl.strictDecode || (a ++ d ++ m ++ u).all validUtf8 then
+      .ok ⟨a, d, m, u, untrackedOf fl w.wd w.index⟩
     else .error .unicodeDecode
 
 def Status.clean (s : Status) : Bool :=
@@ -370,24 +413,24 @@ def stage (w : World) (p : Path) : World :=
   | _ => { w with index := w.index.erase p }
 
 /-- `porcelain.add(repo)` with `paths=None`: every untracked and every unstaged path is staged. -/
-def stageAll (w : World) : Except WErr World :=
-  match unstagedOf w.wd w.index with
+def stageAll (fl : Flags) (w : World) : Except WErr World :=
+  match unstagedOf fl w.wd w.index with
   | .error e => .error e
   | .ok u =>
-    if u.all validUtf8 then .ok ((untrackedOf w.wd w.index ++ u).foldl stage w)
+    if !fl.strictDecode || u.all validUtf8 then .ok ((untrackedOf fl w.wd w.index ++ u).foldl stage w)
     else .error .unicodeDecode
 
 /-- `porcelain.add(repo, paths=[p])` for a path that is a file or absent (not a directory, not reached
 through a link): the unstaged changes of the whole index are computed first, then `p` is staged. -/
-def addPath (w : World) (p : Path) : Except WErr World :=
-  match unstagedOf w.wd w.index with
+def addPath (fl : Flags) (w : World) (p : Path) : Except WErr World :=
+  match unstagedOf fl w.wd w.index with
   | .error e => .error e
   | .ok _ => .ok (stage w p)
 
 def sizeOf (env : Env) (c : Cid) : Option Nat := (env.sizes.find? (fun kv => kv.1 == c)).map (·.2)
 
 /-- `WorkTree.unstage([p])` with a HEAD commit. -/
-def unstage (env : Env) (w : World) (p : Path) : Except WErr World :=
+def unstage (fl : Flags) (env : Env) (w : World) (p : Path) : Except WErr World :=
   if hasFileAncestor w.head p then .error .notTree
   else match w.head.get p with
     | none =>
@@ -396,7 +439,7 @@ def unstage (env : Env) (w : World) (p : Path) : Except WErr World :=
       else .error .key
     | some h =>
       -- `os.lstat(root/p)` for dev/ino/uid/gid: only FileNotFoundError is caught
-      if blockedByFile w.wd p then .error .notADirectory else
+      if !fl.unstageCatchesNotDir && blockedByFile w.wd p then .error .notADirectory else
       match sizeOf env h.cid with
       | none => .error .badObs
       | some sz =>
@@ -572,8 +615,8 @@ def preCheckModified (wd : FMap WFile) (chs : List Change) : Except WErr Unit :=
     | .ok (), .add _ _ => .ok ()) (.ok ())
 
 /-- `_check_uncommitted_changes(repo, target, force=False)`. -/
-def checkUncommitted (w : World) (b : FMap Entry) : Except WErr Unit :=
-  match status w with
+def checkUncommitted (fl : Flags) (w : World) (b : FMap Entry) : Except WErr Unit :=
+  match status fl w with
   | .error e => .error e
   | .ok s =>
     (s.add ++ s.del ++ s.mod ++ s.unstaged).foldl (fun acc p =>
@@ -589,9 +632,17 @@ structure SwitchResult where
   err : Option WErr
   deriving Repr
 
+def Change.isDelete : Change → Bool
+  | .delete _ _ => true
+  | _ => false
+
+/-- The order in which `update_working_tree` applies the changes. -/
+def applyOrder (fl : Flags) (chs : List Change) : List Change :=
+  if fl.deletesFirst then chs.filter Change.isDelete ++ chs.filter (fun c => !c.isDelete) else chs
+
 /-- `porcelain.checkout(repo, branch)` where `branch` points at tree `b`. -/
-def switchTo (w : World) (b : FMap Entry) (obs : Obs) : SwitchResult :=
-  match checkUncommitted w b with
+def switchTo (fl : Flags) (w : World) (b : FMap Entry) (obs : Obs) : SwitchResult :=
+  match checkUncommitted fl w b with
   | .error e => ⟨w, some e⟩
   | .ok () =>
     let chs := changes w.head b
@@ -601,7 +652,7 @@ def switchTo (w : World) (b : FMap Entry) (obs : Obs) : SwitchResult :=
       match preCheckModified w.wd chs with
       | .error e => ⟨w, some e⟩
       | .ok () =>
-        match applyChanges obs ⟨w.wd, w.index⟩ chs with
+        match applyChanges obs ⟨w.wd, w.index⟩ (applyOrder fl chs) with
         | (s, some e) => ⟨{ w with wd := s.wd }, some e⟩
         | (s, none) => ⟨{ head := b, index := s.index, wd := s.wd }, none⟩
 
@@ -634,7 +685,7 @@ inductive Edit where
   | stageAll
 
 /-- Operations that raise leave the world as it was (the index is only written on success). -/
-def applyEdit (env : Env) (w : World) : Edit → World
+def applyEdit (fl : Flags) (env : Env) (w : World) : Edit → World
   | .modify p c s =>
     match w.wd.get p with
     | some f => { w with wd := w.wd.put p { f with cid := c, stat := s } }
@@ -649,10 +700,10 @@ def applyEdit (env : Env) (w : World) : Edit → World
   | .mkdir p => { w with wd := clearAt w.wd p }
   | .setWd wd => { w with wd := wd }
   | .stage p => stage w p
-  | .unstage p => match unstage env w p with | .ok w' => w' | .error _ => w
+  | .unstage p => match unstage fl env w p with | .ok w' => w' | .error _ => w
   | .rmCached p => match rmCached w p with | .ok w' => w' | .error _ => w
-  | .stageAll => match stageAll w with | .ok w' => w' | .error _ => w
+  | .stageAll => match stageAll fl w with | .ok w' => w' | .error _ => w
 
-def runEdits (env : Env) (w : World) (es : List Edit) : World := es.foldl (applyEdit env) w
+def runEdits (fl : Flags) (env : Env) (w : World) (es : List Edit) : World := es.foldl (applyEdit fl env) w
 
 end Dulwich.WorkTree
